@@ -24,8 +24,8 @@ STATED PRECONDITION (where documentation and code DISAGREE - three findings, eac
   (F-c) Metabolite.shadow_price with any status for which check_solver_status raises (None, 'unbounded', ...): the handler does
         `raise err.with_traceback()` without the mandatory argument -> TypeError instead of the documented OptimizationError /
         RuntimeError.
-  The wired contracts exclude exactly those inputs by `pre` (flux / reduced_cost: status not None and not a has-primals status;
-  shadow_price: status 'optimal'); the `:documented` keys state the documented table without precondition and do NOT verify
+  (F-c) was REPAIRED in /repo (`raise err`; recorded in known_findings.jsonl): shadow_price now has the case raising_status too.
+  The wired contracts exclude exactly the inputs of (F-a), (F-b) by `pre` (status not None and not a has-primals status); the `:documented` keys state the documented table without precondition and do NOT verify
   (.venv/bin/python tools/run_contract.py contracts.c04_accessors --hooks HOOKS "Reaction.flux@getter:documented" ...).
 ASSUMED leaves (optlang): `variable.primal`, `variable.dual`, `constraint.dual` read a number (heap fields lp_primal / lp_dual; no
 exception modelled), `solver.status` is None or a string, `solver.constraints[name]` as `Container.__getitem__` (con_at);
@@ -182,14 +182,16 @@ def _pre_rxn(E):
 
 
 def _pre_met(E):
-    return z3.And(_finite(E), z3.Or(_detached(E), z3.And(_status_is(E, "optimal"), _row(E) != NULL)))
+    # (since the repair of the handler - `raise err`, was `raise err.with_traceback()`: finding F-c - the raising statuses are covered
+    # as for the two reaction accessors)
+    return z3.And(_finite(E), z3.Or(_detached(E), z3.And(_status_is(E, "optimal"), _row(E) != NULL), _raising_status(E)))
 
 
 RXN, MET = ("self", TRef("Reaction")), ("self", TRef("Metabolite"))
 REG.add(Contract(MR, "Reaction.flux@getter", "C04", [RXN], _agreed(_flux, True), pre=_pre_rxn, result="real", key="Reaction.flux@getter"))
 REG.add(Contract(MR, "Reaction.reduced_cost@getter", "C04", [RXN], _agreed(_rc, True), pre=_pre_rxn, result="real",
                  key="Reaction.reduced_cost@getter"))
-REG.add(Contract(MMET, "Metabolite.shadow_price@getter", "C04", [MET], _agreed(_sp, False), pre=_pre_met, result="real",
+REG.add(Contract(MMET, "Metabolite.shadow_price@getter", "C04", [MET], _agreed(_sp, True), pre=_pre_met, result="real",
                  key="Metabolite.shadow_price@getter"))
 # demonstration only (not wired): the documentation as written, no precondition beyond finite values / a registered row
 REG.add(Contract(MR, "Reaction.flux@getter", "C04", [RXN], _documented(_flux), pre=_finite, result="real",
